@@ -33,11 +33,13 @@ class Gen:
             return ("array", 1 + r.below(4), self.stored(depth - 1))
         if k < 8 and self.decls:
             return self.aggregate_ref()
+        if r.chance(1, 3):
+            # a pointer (or pointer to pointer) to a primitive: reached through trailing dereferences
+            return ("ptr", ("ptr", self.prim())) if r.chance(1, 3) else ("ptr", self.prim())
         return ("ptr", self.pointee(depth - 1))
 
     def pointee(self, depth):
-        """what a pointer or view leads to: never a primitive (writing through `&i32` takes trailing dereferences that the
-        model of the path does not cover)"""
+        """what a pointer or view leads to, apart from primitives (see `stored`)"""
         r = self.rng
         k = r.below(10)
         if k < 3:
@@ -98,11 +100,14 @@ class Gen:
         r = self.rng
         out = []
         while True:
+            peeled = 0
             while t[0] in ("ptr", "view"):
                 t = t[1]
+                peeled += 1
             k = t[0]
             if k == "prim":
-                return out, t[1]
+                # the pointer levels between the last written step and the primitive are dereferenced at the end
+                return out + [("", "d")] * peeled, t[1]
             if k == "array":
                 out.append(("[%d]" % r.below(t[1]), "e"))
                 t = t[2]
@@ -129,7 +134,7 @@ def program(rng):
         while t[0] == "prim":
             t = g.stored(3)
     elif kind == "pointer":
-        t = ("ptr", g.pointee(2))
+        t = ("ptr", g.prim()) if rng.chance(1, 8) else ("ptr", g.pointee(2))
     elif kind == "view":
         t = ("view", g.pointee(2))
     elif kind == "slice":
@@ -151,7 +156,7 @@ def program(rng):
     members = " ".join("(%d %d %s)" % (i, j, g.sexp(mt)) for i, (kw, ms) in enumerate(g.decls) for j, (n, mt) in enumerate(ms))
     req = "addr\t(addr %s %s (%s) %s)" % ("local" if kind == "local" else "param", g.sexp(t),
                                           " ".join(m for _, m in steps), members)
-    return decls + fn, req, (kind, read, len(steps))
+    return decls + fn, req, (kind, read, len([1 for w, _ in steps if w]), len([1 for w, _ in steps if not w]))
 
 
 # --- reading the real IR back -----------------------------------------------------------------------------------------
